@@ -1,5 +1,6 @@
 """C19 — box equality is a symmetric tolerance relation (partial claim: equality clause only)."""
 from lib import ExprBuilder, path_conditions, result_assignments, as_cmp, orient
+from mir import norm as norm_
 
 EXPLANATION = (
     "Decides the equality clause of C19 structurally: in PartialEq::eq of BoundingBox and Universal2DBox every "
@@ -7,7 +8,10 @@ EXPLANATION = (
     "present (symmetry) and the required coordinates {left,top,width,height} / {xc,yc,angle,aspect,height} are all "
     "covered by such necessary conditions (fails when any differs by more). Rule R19.1 on MIR path conditions. "
     "R19.2: dependency-set wiring of the two ltwh <-> universal conversions (each result field reads exactly the "
-    "documented source fields, confidence included) - a necessary condition of the round trip, not its arithmetic.")
+    "documented source fields, confidence included) - a necessary condition of the round trip, not its arithmetic. "
+    "R19.4: the ltwh entry points feed every named geometry input of the constructor they call from the documented "
+    "parameters. R19.5: inside the library the cached polygon never outlives the geometry it was computed from "
+    "(struct literals carry no cache unless the whole geometry is copied unchanged; &mut self geometry writes reset it).")
 NOT_DECIDED = ["ltwh <-> universal round trip (numeric)", "polygon geometry", "angle normalisation",
                "reflexivity for NaN coordinates"]
 ASSUMPTIONS = ["rustc nightly front end + MIR construction", "f32::abs is the IEEE absolute value"]
@@ -109,9 +113,137 @@ def conversions(ctx):
     ctx.floor(R, n, 9)
 
 
+GEOM = ('xc', 'yc', 'angle', 'aspect', 'height')
+UNIV_DEPS = {'xc': {'left', 'width'}, 'yc': {'top', 'height'}, 'aspect': {'width', 'height'}, 'height': {'height'}}
+IDENT_DEPS = {'left': {'left'}, 'top': {'top'}, 'width': {'width'}, 'height': {'height'}}
+
+
+def ltwh_constructors(ctx):
+    """R19.4 the ltwh entry points of Universal2DBox: whatever they call, every named geometry input of the callee
+    (left/top/width/height of a BoundingBox constructor, or xc/yc/aspect/height of a Universal2DBox constructor) is
+    fed from exactly the like-named / documented parameters of the entry point."""
+    import wiring
+    R = 'R19.4'
+    ctx.rule(R, 'ltwh constructors: named geometry inputs are fed from the documented parameters')
+    F = ctx.F
+    n = 0
+    for name in ('ltwh', 'ltwh_with_confidence'):
+        b = ctx.anchor(R, 'utils::bbox::Universal2DBox::' + name)
+        if b is None:
+            continue
+        pn = wiring.param_names(b)
+        if not {'left', 'top', 'width', 'height'} <= set(pn.values()):
+            ctx.fail(R, b, 'ANCHOR-MISSING:params', 'parameters of %s are no longer (left, top, width, height, ..)' % name)
+            continue
+        eb = ExprBuilder(b)
+        found = False
+        for c in b.find_calls():
+            cbs = F.get(c.callee) or (F.get(c.res) if c.res else [])
+            if len(cbs) != 1:
+                continue
+            cp = wiring.param_names(cbs[0])
+            names = set(cp.values())
+            table = IDENT_DEPS if {'left', 'top', 'width'} <= names else UNIV_DEPS if {'xc', 'yc', 'aspect'} <= names \
+                else None
+            if table is None:
+                continue
+            found = True
+            for k, pname in cp.items():
+                if pname not in table or k - 1 >= len(c.args):
+                    continue
+                a = eb.arg(c, k - 1)
+                got = {pn[p.root[1]] for p in a.places() if p.root[0] == 'param' and p.root[1] in pn}
+                n += 1
+                ctx.check(got == table[pname], R, b, '%s:%s<-%s' % (name, pname, sorted(table[pname])),
+                          'reads %s' % sorted(got),
+                          '%s passes %r as `%s` of %s: it depends on %s (expected exactly %s); the box built is not the '
+                          'given left-top-width-height box' % (name, a, pname, c.callee.rsplit('::', 1)[-1],
+                                                                 sorted(got), sorted(table[pname])), c.ln)
+        if not found:
+            # struct literal form
+            e = eb.place(0, ())
+            aggs = [x for x in e.walk() if x.kind == 'agg' and x.name.endswith('Universal2DBox')]
+            for a in aggs:
+                m = dict(zip(a.extra['fields'], a.args))
+                for f, want in UNIV_DEPS.items():
+                    got = {pn[p.root[1]] for p in m[f].places() if p.root[0] == 'param' and p.root[1] in pn}
+                    n += 1
+                    found = True
+                    ctx.check(got == want, R, b, '%s:%s<-%s' % (name, f, sorted(want)), 'reads %s' % sorted(got),
+                              '%s computes `%s` from %s (expected exactly %s)' % (name, f, sorted(got), sorted(want)))
+        if not found:
+            ctx.fail(R, b, name + ':shape', 'ANCHOR-MISSING: %s neither calls a named box constructor nor builds the '
+                     'box as a struct literal' % name)
+    ctx.floor(R, n, 8)
+
+
+def vertex_cache(ctx):
+    """R19.5 the cached polygon never outlives the geometry it was computed from (inside the library):
+    (a) a struct literal of Universal2DBox sets `_vertex_cache` to None, or copies it together with ALL geometry
+        fields, unchanged, from one and the same source box;
+    (b) a method of Universal2DBox that assigns a geometry field through `&mut self` also assigns `_vertex_cache`
+        on every path from that write to its return."""
+    import wiring
+    from lib import count_on_paths
+    R = 'R19.5'
+    ctx.rule(R, 'vertex cache freshness: struct literals and &mut self geometry writes reset (or recompute) the cache')
+    F = ctx.F
+    n = 0
+    for b in F.all_bodies():
+        if wiring.skip_body(b):
+            continue
+        eb = None
+        writes, resets = [], []
+        for i in sorted(b.live_blocks()):
+            for si, s in enumerate(b.blocks[i]['st']):
+                if s['k'] != 'assign':
+                    continue
+                rv = s['rv']
+                if rv['k'] == 'agg' and rv.get('ak') == 'adt' and norm_(rv.get('adt', '')).endswith('bbox::Universal2DBox') \
+                        and '_vertex_cache' in rv.get('fields', []):
+                    eb = eb or ExprBuilder(b)
+                    m = {f: eb.operand(op, at=(i, si)) for f, op in zip(rv['fields'], rv['ops'])}
+                    c = m['_vertex_cache']
+                    cs = c.strip()
+                    ok = cs.kind == 'agg' and cs.name.endswith('None')
+                    detail = 'None'
+                    if not ok:
+                        src = [p for p in c.places() if p.fields[-1:] == ('_vertex_cache',)]
+                        detail = repr(c)
+                        if len(src) == 1:
+                            base = (src[0].root, src[0].fields[:-1])
+                            ok = all(m[g].strip().kind == 'place' and (m[g].strip().root, m[g].strip().fields) ==
+                                     (base[0], base[1] + (g,)) for g in GEOM)
+                    n += 1
+                    ctx.read(b)
+                    ctx.check(ok, R, b, 'literal:cache-none-or-geometry-unchanged', detail,
+                              'a Universal2DBox is built with `_vertex_cache` = %s while its geometry is not copied '
+                              'unchanged from the same box: the cached polygon belongs to another geometry' % detail,
+                              s['ln'])
+                fl = [p.get('n') for p in s['lhs']['p'] if isinstance(p, dict) and p.get('n')]
+                adts = [p.get('adt') for p in s['lhs']['p'] if isinstance(p, dict) and p.get('n')]
+                if fl and s['lhs']['l'] == 1 and norm_(b.d.get('impl_self', '')).endswith('bbox::Universal2DBox') and \
+                        (adts[0] or '').endswith('Universal2DBox'):
+                    if fl[0] in GEOM:
+                        writes.append((i, fl[0], s['ln']))
+                    elif fl[0] == '_vertex_cache':
+                        resets.append(i)
+        for i, f, ln in writes:
+            r = count_on_paths(b, i, b.returns(), resets)
+            n += 1
+            ctx.read(b)
+            ctx.check(r is not None and r[0] >= 1, R, b, 'write:%s-resets-cache' % f, str(r),
+                      '%s assigns `%s` of an existing box but leaves `_vertex_cache` untouched on some path: '
+                      'get_cached_vertices() / sutherland_hodgman_clip() keep using the polygon of the old geometry'
+                      % (b.npath.rsplit('::', 1)[-1], f), ln)
+    ctx.floor(R, n, 5)
+
+
 def run(ctx):
     _wiring(ctx)
     conversions(ctx)
+    ltwh_constructors(ctx)
+    vertex_cache(ctx)
     R = 'R19.1'
     ctx.rule(R, "every necessary condition of eq()==true has the form abs(self.f - other.f) < EPS; required fields covered")
     n = 0
